@@ -145,8 +145,14 @@ def gidOf (m : List (Nat × Nat)) (cp : Nat) : Option Nat :=
   (m.reverse.find? (fun p => p.1 == cp)).map (·.2)
 
 /-- `for cp in start_cp..=end_cp { gid = map.get(&cp).ok_or(ERROR_OTHER)?; embed(gid as u16) }` -/
-def glyphIdsFor (m : List (Nat × Nat)) (s e : Nat) : Option (List Nat) :=
-  (List.range' s (e + 1 - s)).mapM (fun cp => (gidOf m cp).map (· % 65536))
+def glyphIdsGo (m : List (Nat × Nat)) : Nat → Nat → Option (List Nat)
+  | 0, _ => some []
+  | k + 1, cp =>
+    match gidOf m cp with
+    | none => none
+    | some g => (glyphIdsGo m k (cp + 1)).map (g % 65536 :: ·)
+
+def glyphIdsFor (m : List (Nat × Nat)) (s e : Nat) : Option (List Nat) := glyphIdsGo m (e + 1 - s) s
 
 /-- `serialize_rangeoffset_glyph_ids`: rows (start, end, idDelta, idRangeOffset) and the glyph id
 array for ranges `i, i+1, …` of `segCount`; `nIds` glyph ids written so far
